@@ -119,7 +119,7 @@ pub fn dispatch(campaign: &str, c: &mut Choices, log: &mut CaseLog) -> Option<Ca
 }
 
 pub fn run(mut chk: Check) -> ! {
-    chk.rule = "a corpus of 27 type definitions compiled into the harness (field types: all scalars, u64/i128/u128, char, String, bytes/fixed/array via apache_avro::serde helpers, Option/Vec/HashMap nestings, nested structs and enums, recursion through Option<Box<Self>> and Vec<Self>, one generic parameter, Uuid; container attributes rename_all (camelCase, SCREAMING_SNAKE_CASE), namespace, doc, alias, transparent; field attributes rename, alias, skip, skip_serializing_if + default, flatten, with; enum shapes: unit-only, union of records, bare union, tag+content record, internally tagged record; an enum used twice in one schema) x generated values. \
+    chk.rule = "a corpus of 34 type definitions compiled into the harness (field types: all scalars, u64/i128/u128, char, String, bytes/fixed/array via apache_avro::serde helpers, Option/Vec/HashMap nestings, nested structs and enums, recursion through Option<Box<Self>> and Vec<Self>, one generic parameter, Uuid; container attributes rename_all (camelCase, SCREAMING_SNAKE_CASE), namespace, doc, alias, transparent; field attributes rename, alias, skip, skip_serializing_if + default, flatten, with; enum shapes: unit-only, union of records, bare union, tag+content record, internally tagged record; an enum used twice in one schema) x generated values. \
         Oracle per type: get_schema() is deterministic, well formed by the harness's walker, resolvable, survives a JSON round trip with an identical complete dump; per value: write_ser under the derived schema, read_deser returns an equal value, the generic decoder's value validates; the same through Writer::append_ser / Reader::into_deser_iter (codec x block size) and SpecificSingleObjectWriter/Reader. \
         Non-trivial: a batch containing a value that exercises sequences/maps, non-first variants or defaulted fields. Distinct by hash of (type, values)."
         .into();
